@@ -2,13 +2,5 @@ HOOK_COMMITS = ["032f8f9"]
 NOTES = ("All checks: bin/check <id>. Known findings: known_findings.jsonl. Lean obligations per property: obligations.json. "
          "The repository carries 'fix:' commits for findings F1, F2 (see DESIGN.md section 7).")
 NOT_APPLICABLE = {}
-CLAIMED = {
- "C01": {
-  "text": "Proof: 12 Lean theorems (accept_balanced, foreign_posting_priced, implicit_last, six rejection classes, journal all-or-nothing) "
-          "over the transliterated acceptor, for all journals/settings; the model is tied to the code by running acceptor model and "
-          "real parser on the same generated journals (AST vs rendered text) and comparing every accepted posting field; an independent "
-          "exact-arithmetic oracle re-checks balancedness on the implementation's output.",
-  "note": "Trusted: Lean kernel + 3 standard axioms; hand-written model tied by correspondence; rust_decimal arithmetic outside the exact "
-          "domain is not modelled (known finding F17); text grammar not yet modelled (AST-level tie).",
- },
-}
+# claimed checks live in gen/manifest/Cxx.json (one file per property)
+CLAIMED = {}
